@@ -232,52 +232,77 @@ def reverseCursiveMinorOffset (fuel : Nat) (p : Array Pos) (i : Nat) (d : Dir) (
                 let qj := if d.isHorizontal then { qj with yo := - qi.yo } else { qj with xo := - qi.xo }
                 .ok (put p2 j { qj with chain := wrap16 (- pi.chain), atype := pi.atype }, dep + 1)
 
-/-- src: GPOS/cursive_pos.rs::CursiveAdjustment::apply — everything after the anchors are known.
-    `i` = previous (exit side) glyph found by `iter.prev`, `j` = `buffer.idx` (entry side),
-    `rtlFlag` = `lookup_props & RIGHT_TO_LEFT != 0`. Second component: depth of the chain reversal. -/
-def cursiveApply (p : Array Pos) (i j : Nat) (d : Dir) (rtlFlag : Bool)
-    (entryX entryY exitX exitY : Int) : M (Array Pos × Nat) := do
-  let pi ← get p i
-  let _ ← get p j
-  -- main axis
-  let p ← match d with
-    | .ltr => do
-        let p := put p i { pi with xa := exitX + pi.xo }
-        let pj ← get p j
+/-- src: GPOS/cursive_pos.rs::CursiveAdjustment::apply — the `match direction` block (main axis).
+    `i` = previous (exit side) glyph found by `iter.prev`, `j` = `buffer.idx` (entry side). -/
+def cursiveMain (p : Array Pos) (i j : Nat) (d : Dir) (entryX entryY exitX exitY : Int) : M (Array Pos) :=
+  match get p i, get p j with
+  | .error e, _ => .error e
+  | _, .error e => .error e
+  | .ok pi, .ok _ =>
+    match d with
+    | .ltr =>
+      let p1 := put p i { pi with xa := exitX + pi.xo }
+      match get p1 j with
+      | .error e => .error e
+      | .ok pj =>
         let dd := entryX + pj.xo
-        pure (put p j { pj with xa := pj.xa - dd, xo := pj.xo - dd })
-    | .rtl => do
-        let dd := exitX + pi.xo
-        let p := put p i { pi with xa := pi.xa - dd, xo := pi.xo - dd }
-        let pj ← get p j
-        pure (put p j { pj with xa := entryX + pj.xo })
-    | .ttb => do
-        let p := put p i { pi with ya := exitY + pi.yo }
-        let pj ← get p j
+        .ok (put p1 j { pj with xa := pj.xa - dd, xo := pj.xo - dd })
+    | .rtl =>
+      let dd := exitX + pi.xo
+      let p1 := put p i { pi with xa := pi.xa - dd, xo := pi.xo - dd }
+      match get p1 j with
+      | .error e => .error e
+      | .ok pj => .ok (put p1 j { pj with xa := entryX + pj.xo })
+    | .ttb =>
+      let p1 := put p i { pi with ya := exitY + pi.yo }
+      match get p1 j with
+      | .error e => .error e
+      | .ok pj =>
         let dd := entryY + pj.yo
-        pure (put p j { pj with ya := pj.ya - dd, yo := pj.yo - dd })
-    | .btt => do
-        let dd := exitY + pi.yo
-        let p := put p i { pi with ya := pi.ya - dd, yo := pi.yo - dd }
-        let pj ← get p j
-        pure (put p j { pj with ya := entryY })
-    | .invalid => pure p
-  -- cross axis
-  let (child, parent, xOff, yOff) :=
-    if rtlFlag then (i, j, entryX - exitX, entryY - exitY)
-    else (j, i, -(entryX - exitX), -(entryY - exitY))
-  let (p, dep) ← reverseCursiveMinorOffset (fuelFor p) p child d parent
-  let pc ← get p child
-  let cchain := wrap16 ((parent : Int) - (child : Int))
-  let pc := { pc with atype := ATTACH_CURSIVE, chain := cchain }
-  let pc := if d.isHorizontal then { pc with yo := yOff } else { pc with xo := xOff }
-  let p := put p child pc
-  let pp ← get p parent
-  if pp.chain = wrap16 (- cchain) then
-    let pp := { pp with chain := 0 }
-    let pp := if d.isHorizontal then { pp with yo := 0 } else { pp with xo := 0 }
-    .ok (put p parent pp, dep)
-  else .ok (p, dep)
+        .ok (put p1 j { pj with ya := pj.ya - dd, yo := pj.yo - dd })
+    | .btt =>
+      let dd := exitY + pi.yo
+      let p1 := put p i { pi with ya := pi.ya - dd, yo := pi.yo - dd }
+      match get p1 j with
+      | .error e => .error e
+      | .ok pj => .ok (put p1 j { pj with ya := entryY })       -- NB: no `+ pos[j].y_offset` (as in HarfBuzz)
+    | .invalid => .ok p
+
+/-- src: GPOS/cursive_pos.rs::CursiveAdjustment::apply — from `reverse_cursive_minor_offset(pos, child, ..)`
+    to the end, for given `child`, `parent` and cross-axis offsets. -/
+def cursiveAttach (p : Array Pos) (child parent : Nat) (d : Dir) (xOff yOff : Int) : M (Array Pos × Nat) :=
+  match reverseCursiveMinorOffset (fuelFor p) p child d parent with
+  | .error e => .error e
+  | .ok (p, dep) =>
+    match get p child with
+    | .error e => .error e
+    | .ok pc =>
+      let cchain := wrap16 ((parent : Int) - (child : Int))
+      let pc := { pc with atype := ATTACH_CURSIVE, chain := cchain }
+      let pc := if d.isHorizontal then { pc with yo := yOff } else { pc with xo := xOff }
+      let p := put p child pc
+      match get p parent with
+      | .error e => .error e
+      | .ok pp =>
+        if pp.chain = wrap16 (- cchain) then
+          let pp := { pp with chain := 0 }
+          let pp := if d.isHorizontal then { pp with yo := 0 } else { pp with xo := 0 }
+          .ok (put p parent pp, dep)
+        else .ok (p, dep)
+
+/-- src: GPOS/cursive_pos.rs::CursiveAdjustment::apply — "Cross-direction adjustment": who is child, who is
+    parent (`rtlFlag` = `lookup_props & RIGHT_TO_LEFT != 0`). Second component: depth of the chain reversal. -/
+def cursiveCross (p : Array Pos) (i j : Nat) (d : Dir) (rtlFlag : Bool)
+    (entryX entryY exitX exitY : Int) : M (Array Pos × Nat) :=
+  if rtlFlag then cursiveAttach p i j d (entryX - exitX) (entryY - exitY)
+  else cursiveAttach p j i d (-(entryX - exitX)) (-(entryY - exitY))
+
+/-- src: GPOS/cursive_pos.rs::CursiveAdjustment::apply — everything after the anchors are known. -/
+def cursiveApply (p : Array Pos) (i j : Nat) (d : Dir) (rtlFlag : Bool)
+    (entryX entryY exitX exitY : Int) : M (Array Pos × Nat) :=
+  match cursiveMain p i j d entryX entryY exitX exitY with
+  | .error e => .error e
+  | .ok p1 => cursiveCross p1 i j d rtlFlag entryX entryY exitX exitY
 
 /-! ### the rest of `position` -/
 
